@@ -69,6 +69,13 @@ theorem normalize_valid {shape : List Nat} {items : List Item} {nit : List NItem
   | none => simp [he] at h
   | some its => simp [he] at h; exact normZip_valid h
 
+/-- non-vacuity of the hypotheses above: a valid result index of a batch selection `[1, :, [2,0]]`
+(innermost-first: index tensor, full slice, int) on batch shape `(2, 2, 3)`, and valid items -/
+example : InRange [1, 0] (selShape [.sel [2, 0], .sel [0, 1], .pick 1]) := by decide
+example : ValidItems [.sel [2, 0], .sel [0, 1], .pick 1] [3, 2, 2] := by
+  simp [ValidItems, NItem.Valid]
+example : normalize [2, 3] [.int (-1), .slice (some 1) none none] = some [.pick 1, .sel [1, 2]] := by decide
+
 /-! ### diag, transpose, repeat, stacked inputs -/
 
 /-- `kernel(x1, x2, diag=True)` (as requested by `_diagonal`) is the diagonal of the full matrix -/
@@ -82,6 +89,11 @@ theorem transpose_swap (κ : Θ → X → X → V) (hsym : ∀ θ a b, κ θ a b
     (bs : RShape) (p : Params Θ) (x1 x2 : Inputs X) (b : RIdx) (i j : Nat) :
     (evalDense κ bs p x2 x1).get (i :: j :: b) = (T.mT (evalDense κ bs p x1 x2)).get (i :: j :: b) := by
   simp [evalDense, T.mT, T.swap01, hsym]
+
+/-- the symmetry hypothesis is satisfiable (e.g. any function of the unordered pair) -/
+example : ∀ (θ a b : Nat), (fun (t x y : Nat) => (t, min x y, max x y)) θ a b
+    = (fun (t x y : Nat) => (t, min x y, max x y)) θ b a := by
+  intro θ a b; simp [Nat.min_comm, Nat.max_comm]
 
 /-- multi-output version: tasks are swapped together with the points -/
 theorem transpose_swap_multi (κ : Θ → X → X → Nat → Nat → V) (hsym : ∀ θ a b s u, κ θ a b s u = κ θ b a u s)
